@@ -7,6 +7,7 @@ import math
 
 from .. import universe as U
 from ..acc import Acc
+from .. import argforms as AF
 from ..ref.trees import NULL, RefTS
 
 ID = "C01"
@@ -441,7 +442,8 @@ def check_member(m, mode, acc, deep=True):
     for oi, (sl, th, tr) in enumerate(option_list(m, mode)):
         kw = dict(sample_lists=sl, root_threshold=th)
         if tr is not None:
-            kw["tracked_samples"] = tr
+            # the tracked-sample list in rotating argument forms (list / strided / reversed views / int64 ...)
+            kw["tracked_samples"] = AF.pick(tr, salt=oi)[1]
         case = dict(case_base, options={"sample_lists": sl, "root_threshold": th, "tracked_samples": tr})
         acc.ev(1, nontrivial)
 
